@@ -15,9 +15,18 @@
 (* A session state is  objs : name -> object state  and  al : name -> canonical name (two names   *)
 (* bound to the SAME Python object -- autosomes() returns self when nothing has an integer name).  *)
 (*                                                                                                *)
-(* A-layer: Step(w, objs, al, ev) -- one operator per public method, following the code branch     *)
+(* A-layer: Step(w, objs, al, ev) -- one CASE arm per public method, following the code branch      *)
 (*          for branch, including which operations keep and which reset the row labels, dtype     *)
 (*          coercions in the constructor, column order.  Disagreement = MODEL-DRIFT.              *)
+(*          Step returns [objs, al, err, ret, alias, dc]: err = "" | the exception class name |    *)
+(*          "ANY" (some exception, class not modelled) | "MAYBE" (pandas fails or not, state       *)
+(*          unchanged either way); ret = the non-array result [v, w, t, g]; alias = the result IS  *)
+(*          the receiver; dc = the result depends on state the projection does not hold.           *)
+(*          Labels:  KEPT by __getitem__ (slice, mask), filter, autosomes, by_chromosome, by_arm,  *)
+(*          copy, add_columns, keep_columns, drop_extra_columns, drop_low_coverage,                *)
+(*          as_dataframe(reset_index=False), shuffle (permuted with the rows), __setitem__;        *)
+(*          RESET to 0..n-1 by sort, add (unless `other` is empty: then nothing happens at all),   *)
+(*          concat, from_rows, from_columns, as_rows, as_columns, as_dataframe(reset_index=True).  *)
 (* P-layer: Clauses / Holds -- ONLY what the package documents (docstrings, error messages);      *)
 (*          each clause quotes its source.                                                        *)
 EXTENDS Text, SequencesExt, FiniteSetsExt, Functions, Json, IOUtils
